@@ -158,7 +158,7 @@ func run(c *lib.Ctx) error {
 	}
 	var sweeps []*sweep
 	pairs := lib.NewPairCover()
-	for _, a := range assets {
+	for ai, a := range assets {
 		ref := a.Ref()
 		N := int64(len(ref.Segs))
 		segMS := a.LoopMS / N
@@ -204,7 +204,20 @@ func run(c *lib.Ctx) error {
 			if k == 5 && 120000%segMS == 0 && a.LoopMS%N == 0 {
 				// periods with an offset below a segment: a new, still empty Period appears at its start while
 				// the newest segment became available a little earlier
-				cfg = lib.TLCfg{StartS: []int64{0, 30}[rng.Intn(2)], Snr: -1, Tsbd: []int64{-1, 10}[rng.Intn(2)], Mode: modes[rng.Intn(2)], AtoMS: segMS / 4, Extra: "periods_30/"}
+				// ... or, with an offset beyond a segment, the new Period is created with its first segment before
+				// its start (and nothing changes at the start); offsets between the segment durations of two
+				// adaptation sets make them enter the new Period at different instants
+				atos := []int64{segMS / 4, segMS * 3 / 4, segMS + segMS/2, 2*segMS + segMS/4}
+				ato := atos[ai%len(atos)]
+				for _, r := range a.Reps {
+					if M := int64(len(r.Segs)); r != ref && r.Kind != "audio" && M > N {
+						ato = a.LoopMS/M + (segMS-a.LoopMS/M)/2 // between the segment durations of two adaptation sets
+					}
+				}
+				cfg = lib.TLCfg{StartS: []int64{0, 30}[rng.Intn(2)], Snr: -1, Tsbd: []int64{-1, 10, 20}[rng.Intn(3)], Mode: modes[rng.Intn(2)], AtoMS: ato, Extra: []string{"periods_30/", "periods_60/"}[rng.Intn(2)]}
+				if 60000%segMS != 0 {
+					cfg.Extra = "periods_30/"
+				}
 			}
 			s := &sweep{ls: lsOf[a], a: a, cfg: cfg, avail: map[int64]int64{}}
 			if k > 3 && k < 5 && rng.Intn(4) == 0 {
@@ -249,6 +262,20 @@ func run(c *lib.Ctx) error {
 					add(B - 1)
 					add(B)
 					add(B + 1)
+				}
+			}
+			// representations on another segment grid than the reference one become available at instants of their own
+			for _, r := range a.Reps {
+				M := int64(len(r.Segs))
+				if r == ref || M == N || M == 0 || r.Kind == "audio" {
+					continue
+				}
+				for m := base * M / N; m < (base+span*N+2)*M/N; m++ {
+					b := ceilRat(availRat(r.LoopE(m), r.Timescale, s.cfg))
+					if b >= s0 {
+						add(b - 1)
+						add(b)
+					}
 				}
 			}
 			if s.stopS > 0 {
